@@ -164,6 +164,12 @@ Section Inv.
     mlmc_price (levels s) == sum_level_means 0 (levels s).
   Proof. intros H. pose proof (rows_are_samples fuel L0 N0) as F. destruct H as [H|H]; rewrite H in F; apply price_done, F. Qed.
 
+  Theorem price_is_sum_of_means_full fuel L0 N0 s :
+    (price_run sample cost alloc conv garbage df notional level_max 0 fuel L0 N0 = Converged s \/
+     price_run sample cost alloc conv garbage df notional level_max 0 fuel L0 N0 = Fallthrough s) ->
+    mlmc_price (levels s) == sum_level_means 0 (levels s) /\ forall x, snd (mk 0%nat x) == 0.
+  Proof. intros H. split; [eapply price_is_sum_of_means; eassumption|apply coarse_zero_level0]. Qed.
+
   (* ---------------------------------------------------------------- results are functions of the same rows *)
   Definition kurt_textbook (d : list Q) : Q :=
     (raw4 d - 4 * raw3 d * mean d + 6 * raw2 d * sq (mean d) - 3 * fourth (mean d)) / sq (Qmaxb 1 (raw2 d - sq (mean d))).
